@@ -89,7 +89,7 @@ def load_findings(prop: str) -> list[dict]:
                 d = json.loads(line)
             except Exception:
                 continue
-            if d.get("property") == prop and d.get("status") == "known":
+            if (d.get("property") == prop or prop in d.get("also", [])) and d.get("status") == "known":
                 res.append(d)
     return res
 
